@@ -27,7 +27,7 @@ TIERS = {
               "NULLABLE": (10, 20, 9, 17, 60, 30), "AMBIG": (7, 17, 6, 15, 160, 60), "LEFTREC": (8, 24, 7, 18, 160, 80),
               "RIGHTREC": (9, 24, 8, 18, 160, 80), "MULTICHAR": (3, 8, 3, 8, 8, 9), "CSVISH": (8, 24, 7, 18, 220, 120),
               "TWOSTART": (10, 20, 9, 17, 30, 20), "LENGTHS": (8, 20, 7, 16, 160, 100)},
-        expand_seeds=9, mutate_seeds=7, step_timeout=400, cap=30, n_phase1=16, phase1_seeds=2),
+        expand_seeds=5, mutate_seeds=4, step_timeout=400, cap=30, n_phase1=16, phase1_seeds=2),
 }
 FUZZERS = [("GrammarFuzzer", 0, 10), ("GrammarCoverageFuzzer", 0, 10), ("GrammarFuzzer", 2, 5), ("GrammarCoverageFuzzer", 3, 20)]
 OPS = ["mutate", "replace_subtree_randomly", "swap_subtrees", "generalize_subtree"]
